@@ -70,7 +70,9 @@ StopLine(e) ==
     /\ IF e.kind = "failed_start"
        THEN /\ phase = "new" /\ e.store = store /\ e.ts = ts      \* nothing is written
             /\ UNCHANGED <<store, ts>>
-       ELSE /\ phase \in {"running", "failing"}
+       ELSE /\ IF e.kind = "init_stop" THEN phase = "new"      \* a regular stop during the initialisation:
+                                                              \* the blocks were started, so all is saved
+                                    ELSE phase \in {"running", "failing"}
             \* all persistent blocks (live = their states when the stop began); block sev handled one
             \* more event while the blocks were being stopped: with sync_state that state is saved too
             /\ \A b \in B : e.store[b] = (IF b \notin pers THEN store[b]
